@@ -34,7 +34,8 @@ try:
     meta["demo_patched_output_tail"] = r1.stdout[-400:]
     ts = sh("cd %s && /venv/bin/python -m pytest -q -p no:cacheprovider 2>&1 | tail -1" % wt)
     meta["suite_with_patch"] = ts.stdout.strip()
-    diff = sh("git -C %s diff HEAD -- ahrs" % wt).stdout
+    # bytes, not text: one file of the library has CRLF line endings and a text-mode capture would strip the CRs from the patch
+    diff = subprocess.run("git -C %s diff HEAD -- ahrs" % wt, shell=True, stdout=subprocess.PIPE).stdout
     res = {}
     out = tempfile.mkdtemp(prefix="ahrs-seed-out-")
     for c in checks:
@@ -53,7 +54,7 @@ try:
     if ok and len(diff) > 50:
         d = os.path.join(root, "seeded", sid)
         os.makedirs(d, exist_ok=True)
-        open(os.path.join(d, "patch.diff"), "w").write(diff)
+        open(os.path.join(d, "patch.diff"), "wb").write(diff)
         shutil.copy(demo, os.path.join(d, "demo.py"))
         json.dump(meta, open(os.path.join(d, "meta.json"), "w"), indent=1)
     print(json.dumps({k: meta[k] for k in ("seed_id", "confirmed", "demo_clean_exit", "demo_patched_exit", "suite_with_patch", "detected_by")}))
